@@ -21,7 +21,7 @@ class C02(Scenario):
     prop = "C02"
     level = "exploration"
     profiles = ["dyadic", "dyadic", "dyadic", "awkward"]
-    budgets = {"quick": 12000, "thorough": 250000}
+    budgets = {"quick": 16000, "thorough": 300000}
     wall_caps = {"quick": 110, "thorough": 1500}
     rule = ("one run = one tree (19 primitives) and one stream of <= 40 (quick) / 200 (thorough) weighted records drawn from "
             "the tree's critical alphabet (every edge, threshold, centre midpoint, their neighbours, NaN, +-inf, strings / "
